@@ -21,9 +21,11 @@
 (*       spillover really accumulated cover its cost (Bound), so over any span of  *)
 (*       k window lengths since the key's first request at most k x max is         *)
 (*       admitted (KBound);                                                        *)
-(*   F3  a request is refused only if allowance and spillover do not cover it;     *)
+(*   F3  a request is refused only if the allowance does not cover it and the      *)
+(*       spillover does not cover it either;                                       *)
 (*   F4  which of the two a request consumes first is not documented (the code     *)
-(*       takes spillover first and does not open a window meanwhile): any split;   *)
+(*       takes spillover first and does not open a window meanwhile): any split,   *)
+(*       or none (a request neither of the two covers alone may be refused);       *)
 (*   F5  at the monthly renewal instant the quota is renewed: the spillover is     *)
 (*       dropped and the window may start afresh.                                  *)
 (* The code implements none of the carrying: nothing ever writes a positive        *)
@@ -87,8 +89,10 @@ Succ(s, c, out) ==
              : x \in {y \in 0..c : /\ y <= b
                                    /\ cnt + c - y <= Max
                                    /\ (~exp /\ ~Live(s) => y = c)} }   \* no window is opened: spillover pays all
-      ELSE IF cnt + c > Max + a /\ (exp \/ Live(s))
-      THEN LET nb == MinOf(b, cnt + c - Max - 1) IN
+      \* refused: the allowance alone does not cover it and for some permitted spillover value neither does the
+      \* spillover alone (an implementation need not split a request over the two)
+      ELSE IF cnt + c > Max /\ a < c /\ (exp \/ Live(s))
+      THEN LET nb == MinOf(b, c - 1) IN
            {[anchor |-> IF exp THEN now ELSE s.anchor, own |-> cnt, lo |-> a, hi |-> nb,
              mr |-> IF exp THEN FALSE ELSE s.mr]}
            \cup (IF exp THEN {s} ELSE {})                       \* a refusal need not leave the window reopened
@@ -110,7 +114,8 @@ Advance(d, renew) ==
     /\ d > 0
     /\ now' = now + d
     /\ hyp' = IF ~renew THEN hyp
-              ELSE [g \in Group |-> {IF s.anchor = -1 THEN s ELSE [s EXCEPT !.lo = 0, !.hi = 0, !.mr = TRUE] : s \in hyp[g]}]
+              ELSE [g \in Group |-> hyp[g] \cup      \* D5: the renewal takes effect (F5) or does not (the code)
+                        {IF s.anchor = -1 THEN s ELSE [s EXCEPT !.lo = 0, !.hi = 0, !.mr = TRUE] : s \in hyp[g]}]
     /\ renewed' = (renewed \/ renew)
     /\ last' = [ev |-> "adv", d |-> d]
     /\ UNCHANGED <<tot, first>>
